@@ -141,9 +141,9 @@ def expected_files(model_out, sizes, seed, preset):
     names = list(preset)
     out = {}
     for name, toks in model_out['ns']:
-        corrupt = bool(toks) and toks[-1] == 999
+        corrupt = 999 in toks           # (the marker follows the corrupted body, which need not be the last one)
         if corrupt:
-            toks = toks[:-1]
+            toks = [t for t in toks if t != 999]
         if toks and toks[0] >= 100000:
             b = preset[names[toks[0] - 100000]]
         else:
